@@ -67,8 +67,9 @@ def literal_jobs(tier="thorough"):
                     J.append(("hp_%s_%s_%s_%s" % (role, m, p, pres[:3]), 'HdrPrimSk("%s", "%s", "%s", "%s")' % (role, m, p, pres)))
     for p in PRIMS:
         J.append(("lit_" + p, 'LitSk("%s", {"none", "sbe", "rep", "special"})' % p))
-        if p not in ("float", "double"):
-            J.append(("lz_" + p, 'LitSk("%s", {"lz"})' % p))
+        J.append(("lz_" + p, 'LitSk("%s", {"lz"})' % p))
+        if p in ("float", "double"):
+            J.append(("wide_" + p, 'LitSk("%s", {"wide"})' % p))
     J += [("enums", "SkEnums"), ("sets", "SkSets"), ("strings", "SkStrings"), ("case", "SkCase")]
     J += [("desc_" + c, 'DescSk("%s")' % c) for c in DESC_CLASSES]
     for lvl, tag in (("message", "m"), ("group", "g")):
